@@ -687,6 +687,14 @@ class CallMixin:
                         return o.items.pop(*args)
                     except IndexError:
                         raise PyRaise("IndexError")
+                if name == "pop" and o.items is None and len(args) == 1 and args[0] == 0:
+                    self.mutate_check(o, st, "pop")
+                    n = z3.Length(o.t)
+                    if not self.decide(n > 0, st):
+                        raise PyRaise("IndexError")
+                    first = self.elem_value(o.tag, o.t[0] if o.origin is None else o.origin[0][o.origin[1]])
+                    o.t, o.origin = z3.SubSeq(o.t, 1, n - 1), None
+                    return first
                 if name in ("insert", "remove", "sort", "reverse", "clear", "pop"):
                     self.mutate_check(o, st, name)
                     raise Unsupported(f"list.{name}")
